@@ -423,8 +423,30 @@ def _one(case, target, ev_dtype, rec, e_dtype='float64', pattern='default', tof_
         rec.cls(f'dtype_{got_var.dtype}_result')
         if tgt == 'energy_transfer' and got_var.dtype == sc.DType.float32:
             rec.cls('inelastic_float32_result')
-    if ev_dtype == 'int64':
+    if ev_dtype in ('int64', 'int32'):
         rec.cls('int_event_coord')
+        # the dense formula for an integer time stamp is the formula for that number: the same events with their
+        # (exactly representable) stamps stored as float64 must get the same values up to rounding
+        dense_f = dense.copy(deep=True)
+        dense_f.coords['tof'] = dense.coords['tof'].to(dtype='float64')
+        _fresh_state()
+        want_f = scn.convert(dense_f, origin='tof', target=tgt, scatter=True).coords[tgt].values.astype(np.float64)
+        rec.transitions += 1
+        g = got.astype(np.float64)
+        if g.shape == want_f.shape and len(g):
+            nan_g, nan_w = np.isnan(g), np.isnan(want_f)
+            fixed = 0.0
+            for en in ('incident_energy', 'final_energy'):
+                if en in da.coords:
+                    fixed = float(np.max(np.abs(da.coords[en].values)))
+            fin = ~(nan_g | nan_w)
+            tol = 1e-9 * (np.abs(want_f[fin]) + fixed)
+            if (nan_g != nan_w).any() or (np.abs(g[fin] - want_f[fin]) > tol).any():
+                i = int(np.flatnonzero((nan_g != nan_w) | ~fin | (np.abs(np.where(fin, g - want_f, 0)) > 1e-9 * (np.abs(np.where(fin, want_f, 0)) + fixed)))[0]) if (nan_g != nan_w).any() else int(np.flatnonzero(fin)[np.flatnonzero(np.abs(g[fin] - want_f[fin]) > tol)[0]])
+                rec.viol(SITE, 'integer_event_value', f'event {i} with integer coordinate {ev_tof[i]!r} {in_buf.coords["tof"].unit} got {g[i]!r}, the same number stored as float64 gives {want_f[i]!r}', **sub)
+            else:
+                rec.cls('integer_events_equal_float_events')
+        rec.validated += 1
 
     # ---- data preserved: weights, variances, order, membership, other event coords/masks --------
     rec.validated += 1
